@@ -12,6 +12,8 @@ import (
 	"fmt"
 	"image"
 	"image/color"
+	"io"
+	"time"
 	"math/rand"
 	"os"
 	"runtime"
@@ -23,6 +25,8 @@ import (
 	"github.com/evanoberholster/imagemeta/exif2"
 	"github.com/evanoberholster/imagemeta/imagehash"
 	"github.com/evanoberholster/imagemeta/imagetype"
+	"github.com/evanoberholster/imagemeta/jpeg"
+	"github.com/evanoberholster/imagemeta/meta"
 )
 
 type job struct {
@@ -56,6 +60,20 @@ func runOne(j job) (res string) {
 	case "Parse":
 		e, err := exif2.Parse(rd)
 		return fmt.Sprint(err) + e.String()
+	case "ScanJPEG":
+		// the package-level scanner on a plain reader (takes its bufio.Reader from jpeg's own pool)
+		var sb strings.Builder
+		err := jpeg.ScanJPEG(rd, func(r io.Reader, h meta.ExifHeader) error {
+			b := make([]byte, 64)
+			n, _ := io.ReadFull(r, b)
+			fmt.Fprint(&sb, "E", h.FirstIfdOffset, h.ExifLength, n, b[:n])
+			return nil
+		}, func(r io.Reader) error {
+			b, _ := io.ReadAll(r)
+			fmt.Fprint(&sb, "X", len(b))
+			return nil
+		})
+		return fmt.Sprint(err) + sb.String()
 	case "ItScan":
 		t, err := imagetype.Scan(rd)
 		return fmt.Sprint(t, err)
@@ -103,6 +121,20 @@ func main() {
 	for _, procs := range []int{1, 2, runtime.NumCPU()} {
 		runtime.GOMAXPROCS(procs)
 		var wg sync.WaitGroup
+		// keep the time-zone cache cold: it is emptied (under its write lock) every millisecond, so that concurrent decodes
+		// keep missing and inserting
+		stop := make(chan struct{})
+		go func() {
+			for {
+				select {
+				case <-stop:
+					return
+				default:
+					exif2.VerifResetTimeZones()
+					time.Sleep(time.Millisecond)
+				}
+			}
+		}()
 		for g := 0; g < ng; g++ {
 			wg.Add(1)
 			go func(g int) {
@@ -122,6 +154,7 @@ func main() {
 			}(g)
 		}
 		wg.Wait()
+		close(stop)
 	}
 	fmt.Printf("calls=%d mismatches=%d\n", 3*ng*iters, mismatches)
 	if mismatches > 0 {
